@@ -13,6 +13,8 @@
 //! canonical reply that the model must reproduce.
 mod common;
 mod c20;
+mod ord;
+mod obj;
 mod print;
 mod c03;
 mod parse;
@@ -30,6 +32,8 @@ pub fn exec_line(line: &str, out: &mut Out) {
         "parse" => parse::exec(rest, out),
         "c03" => c03::exec(rest, out),
         "print" => print::exec(rest, out),
+        "obj" => obj::exec(rest, out),
+        "ord" => ord::exec(rest, out),
         _ => ("bad-op".to_string(), false),
     }));
     match r {
@@ -78,6 +82,8 @@ fn real_main() {
         match prop {
             "C20" => c20::gen(&mut out, thorough),
             "C03" => c03::gen(&mut out, thorough),
+            "C06" => obj::gen(&mut out, thorough, "C06"),
+            "C14" => ord::gen(&mut out, thorough),
             "C04" => print::gen(&mut out, thorough, "C04"),
             "C08" => print::gen(&mut out, thorough, "C08"),
             "C13" => print::gen(&mut out, thorough, "C13"),
